@@ -50,15 +50,20 @@ func TestC03(t *testing.T) {
 			}
 		}
 	}
-	for i := 0; i < r.Pick(12, 400); i++ {
+	for i := 0; i < r.Pick(24, 600); i++ {
 		cases = append(cases, mon.CaseSpec{Name: "sendtimeout", Spec: c03Spec{Mode: "sendtimeout", NOps: i}})
 	}
 	for i := 0; i < r.Pick(12, 400); i++ {
 		cases = append(cases, mon.CaseSpec{Name: "openctx", Spec: c03Spec{Mode: "openctx", NOps: i}})
 	}
+	for i := 0; i < r.Pick(12, 400); i++ {
+		cases = append(cases, mon.CaseSpec{Name: "replyrace", Spec: c03Spec{Mode: "replyrace", NCtx: 1 + i%2, NPipes: 1, NOps: 250}})
+	}
 	r.Run(cases, func(c *mon.Case) {
 		sp := c.Spec.(c03Spec)
 		switch sp.Mode {
+		case "replyrace":
+			c03ReplyRace(c, sp)
 		case "seq":
 			c03Seq(c, sp)
 		case "parked":
